@@ -1543,10 +1543,10 @@ func main() {
 		var sent []string
 		ast.Inspect(fd.Body, func(n ast.Node) bool {
 			if call, ok := n.(*ast.CallExpr); ok && (src(call.Fun) == "errors.Is" || src(call.Fun) == "errors.As") && len(call.Args) == 2 {
-				sent = append(sent, leanStr(src(call.Args[1])))
+				sent = append(sent, leanStr(src(call.Args[1]))) // recognised through wrapping
 			}
 			if be, ok := n.(*ast.BinaryExpr); ok && (be.Op == token.EQL || be.Op == token.NEQ) && src(be.X) == "err" && src(be.Y) != "nil" {
-				sent = append(sent, leanStr(src(be.Y)))
+				sent = append(sent, leanStr("=="+src(be.Y))) // recognised only when returned bare
 			}
 			return true
 		})
